@@ -10,10 +10,10 @@ META = {
     "explanation": "CBMC with all pointer/bounds/overflow/shift checks on each real crypt_<m>_rn, called as do_crypt calls it: output and scratch are two objects of the real sizes (any write outside them, e.g. into the application-owned setting/input fields, is an out-of-object access), phrase and setting are exact-fit objects (the NUL is the last byte), digest kernels are havoc models that check readability of their input ranges; stretch loops abstracted after K iterations.",
     "functions": ["crypt_{md5crypt,sha256crypt,sha512crypt,sunmd5,sha1crypt,nt,bigcrypt,descrypt,bsdicrypt}_rn", "check_badsalt_chars", "get_hashfn"],
     "bounds": {"quick": {"setting tail": "per method 8..40 symbolic bytes after the fixed prefix", "phrase": "<= 16 (bigcrypt 20) symbolic bytes", "stretch loops": "3 iterations then abstracted"},
-               "long settings": "concrete lengths per query, constant fill except the last two characters: sunmd5 tail 355,356,357 / sha1crypt 66,67 (quick), more in thorough", "thorough": {"setting tail": "same", "phrase": "<= 24", "stretch loops": "8 iterations"}},
+               "thorough": {"setting tail": "same", "phrase": "<= 24", "stretch loops": "8 iterations"}},
     "outside": ["memory safety inside the digest/cipher kernels with symbolic data (C16/C17 cover Update/Final framing and DES)",
                 "bcrypt: the wrappers crypt_bcrypt*_rn / BF_full_crypt (self-test logic, final copy) are real, BF_crypt itself is a contract stub (models/bf_stub.c); yescrypt, scrypt, gost-yescrypt method bodies are not encoded",
-                "settings longer than the stated bounds; stretch-loop iterations beyond K"],
+                "settings longer than the stated bounds (queries with 340..420-character settings, even with the length fixed and constant fill, gave no verdict in 25 minutes; seeds C04-m2/C06-m1 - sunmd5 space check at salt part 361 - are therefore not detected); stretch-loop iterations beyond K"],
     "assumptions": ["setting passed to a method contains no byte rejected by check_badsalt_chars (do_crypt establishes it: C05)",
                     "havoc digest models (models/digest_havoc.c): arbitrary digest bytes, context zeroed on Final"],
     "trusted": [],
@@ -30,17 +30,5 @@ def queries(tier, seed, build):
         qs.append(method_query(m, "c04-" + n, cap_k=3 if tier == "quick" else 8,
                                max_p=m.max_p if tier == "quick" else max(m.max_p, 24),
                                timeout=900 if tier == "quick" else 3000))
-    # long settings, length fixed per query around the constants the code compares with
-    # (384-byte output: sunmd5 needs saltlen + 24 <= 384, i.e. tail 356 after "$md5$";
-    #  sha1crypt: 64-character salt limit - the F1 region starts at 65)
-    longs = []
-    if tier == "thorough":
-        longs += [("sunmd5", 355), ("sunmd5", 356), ("sunmd5", 357), ("sha1crypt", 66), ("sha1crypt", 67), ("sunmd5", 340), ("sunmd5", 358), ("sunmd5", 380), ("sha1crypt", 120), ("sha1crypt", 345), ("sha1crypt", 380),
-                  ("md5crypt", 100), ("md5crypt", 380)]
-    for n, sl in longs:
-        m = BY_NAME[n]
-        q = method_query(m, "c04-%s-long%d" % (n, sl), max_s=sl, max_p=2, at_base=True,
-                         extra_defs=["FIX_SLEN=%d" % sl, "LONG_FILL"], timeout=1500 if tier == "quick" else 3000)
-        qs.append(q)
     qs.append(bf_core_query('c04-bcrypt-core'))
     return qs
